@@ -13,7 +13,7 @@ RULE = ("smooth networks (mass action orders 1-4 with repeats, Hill families wit
 ASSUMPTIONS = ["sympy differentiation of vlib/ref.py's rate equations is the analytic derivative",
                "error bound: h^4/30*M5, h^2/6*M3, h/2*M2 (x2) + 1e-9(1+|entry|) for np.round(.,10) + 50 eps max|f|/h"]
 RUN_OPTS = {"batch_size": 4, "timeout_per_case": 120.0}
-MINIMA = {"*": {"jacobian_entries": 1500, "sensitivity_entries": 1500, "nontrivial_entries": 300, "contract_evaluations": 200}}
+MINIMA = {"*": {"jacobian_entries": 1500, "sensitivity_entries": 1500, "nontrivial_entries": 300, "contract_evaluations": 200, "passes_after_inplace_update": 20}}
 METHODS = ["fourth_order_central_difference", "central_difference", "forward_difference", "backward_difference"]
 
 
@@ -54,7 +54,11 @@ def gen_case(rnd):
                     r["fields"][key] = float("%.4g" % min(max(float(v), 0.1), 10.0))
     states = [{s: float("%.4g" % rnd.uniform(0.5, 10)) for s in species} for _ in range(2)]
     return {"spec": {"species": species, "x0": {s: 1.0 for s in species}, "params": params, "reactions": rx, "rules": []}, "states": states,
-            "t": float("%.3g" % rnd.uniform(0, 5))}
+            "t": float("%.3g" % rnd.uniform(0, 5)),
+            # in-place parameter changes on the SAME model object between analysis passes (a history): every pass must be
+            # computed at the then-current values
+            "updates": [{"how": rnd.choice(["set_params", "set_parameter"]), "n": rnd.randint(1, 3), "seed": rnd.getrandbits(30)}
+                        for _ in range(rnd.choice([0, 1, 1, 2]))]}
 
 
 def _isnum(v):
@@ -169,63 +173,81 @@ def run_case(case):
                 return math.inf
         return coef * mx
 
-    for st in case["states"]:
-        xs = np.array([st[s] for s in species])
-        sub_all = dict(pvals)
-        sub_all.update({X[s]: st[s] for s in species})
-        sub_all[tsym] = 0.0
-        fmax = max(abs(float(f[s].subs(sub_all))) for s in species) if species else 0.0
-        for method in METHODS:
-            before = dict(M.get_parameter_dictionary())
-            try:
-                J = py_get_jacobian(M, xs.copy(), method=method)
-            except Exception as e:
-                viol.append({"key": "C18/jacobian-raises", "msg": "py_get_jacobian(method=%s) raised %r" % (method, e)})
-                continue
-            if dict(M.get_parameter_dictionary()) != before:
-                viol.append({"key": "C18/parameters-changed", "msg": "py_get_jacobian(method=%s) changed the parameter dictionary" % method})
-            if J.shape != (len(species), len(species)):
-                viol.append({"key": "C18/jacobian-shape", "msg": "Jacobian shape %s" % (J.shape,)})
-                continue
-            for i, si in enumerate(species):
-                for j, sj in enumerate(species):
-                    sub = {k: v for k, v in sub_all.items() if k != X[sj]}
-                    dexpr = sympy.diff(f[si], X[sj])
-                    exact = float(dexpr.subs(sub_all))
-                    tol = 2 * bound(f[si], X[sj], sub, st[sj], method) + 1e-9 * (1 + abs(exact)) + 50 * eps * fmax / h
-                    C["jacobian_entries"] += 1
-                    if exact != 0 and sympy.diff(dexpr, X[sj]) != 0:
-                        nontrivial = True
-                        C["nontrivial_entries"] += 1
-                    if not (abs(J[i, j] - exact) <= tol):
-                        viol.append({"key": "C18/jacobian:%s" % method,
-                                     "msg": "J[%s,%s] (method %s) = %r, analytic d f_%s/d %s = %r, tolerance %.3g at state %s" % (si, sj, method, J[i, j], si, sj, exact, tol, st)})
-            for pname in pdict:
-                before = dict(M.get_parameter_dictionary())
-                try:
-                    Z = py_get_sensitivity_to_parameter(M, xs.copy(), pname, method=method)
-                except Exception as e:
-                    viol.append({"key": "C18/sensitivity-raises", "msg": "py_get_sensitivity_to_parameter(%s, method=%s) raised %r" % (pname, method, e)})
-                    continue
-                after = dict(M.get_parameter_dictionary())
-                if after != before:
-                    viol.append({"key": "C18/parameters-changed", "msg": "py_get_sensitivity_to_parameter(%s, %s) changed parameters: %r -> %r" % (
-                        pname, method, {k: before[k] for k in before if before[k] != after.get(k)}, {k: after[k] for k in after if before.get(k) != after[k]})})
-                    M.set_params(before)
-                sub = {k: v for k, v in sub_all.items() if k != P[pname]}
-                for i, si in enumerate(species):
-                    dexpr = sympy.diff(f[si], P[pname])
-                    exact = float(dexpr.subs(sub_all))
-                    tol = 2 * bound(f[si], P[pname], sub, pdict[pname], method) + 1e-9 * (1 + abs(exact)) + 50 * eps * fmax / h
-                    C["sensitivity_entries"] += 1
-                    if exact != 0 and sympy.diff(dexpr, P[pname]) != 0:
-                        nontrivial = True
-                        C["nontrivial_entries"] += 1
-                    if not (abs(Z[i] - exact) <= tol):
-                        viol.append({"key": "C18/sensitivity:%s" % method,
-                                     "msg": "dF/d%s[%s] (method %s) = %r, analytic %r, tolerance %.3g at state %s" % (pname, si, method, Z[i], exact, tol, st)})
-        if len(viol) > 4:
-            break
+    import random as _random
+    passes = [None] + list(case.get("updates", []))
+    for pi, upd in enumerate(passes):
+      if upd is not None:
+        rr = _random.Random(upd["seed"])
+        names = rr.sample(sorted(pdict), min(upd["n"], len(pdict)))
+        change = {nm: float("%.4g" % min(max(pdict[nm] * rr.uniform(0.5, 2.0), 0.1), 10.0)) for nm in names}
+        if upd["how"] == "set_params":
+            M.set_params(change)
+        else:
+            for nm, v in change.items():
+                M.set_parameter(nm, v)
+        pdict.update(change)
+        got_pd = {k: float(v) for k, v in M.get_parameter_dictionary().items()}
+        if got_pd != {k: float(v) for k, v in pdict.items()}:
+            return {"error": "harness: parameter update %r not reflected by the model: %r" % (change, got_pd)}
+        pvals = {P[p]: float(v) for p, v in pdict.items()}
+        C["passes_after_inplace_update"] += 1
+      for st in (case["states"] if pi == 0 else case["states"][:1]):
+          xs = np.array([st[s] for s in species])
+          sub_all = dict(pvals)
+          sub_all.update({X[s]: st[s] for s in species})
+          sub_all[tsym] = 0.0
+          fmax = max(abs(float(f[s].subs(sub_all))) for s in species) if species else 0.0
+          for method in METHODS:
+              before = dict(M.get_parameter_dictionary())
+              try:
+                  J = py_get_jacobian(M, xs.copy(), method=method)
+              except Exception as e:
+                  viol.append({"key": "C18/jacobian-raises", "msg": "py_get_jacobian(method=%s) raised %r" % (method, e)})
+                  continue
+              if dict(M.get_parameter_dictionary()) != before:
+                  viol.append({"key": "C18/parameters-changed", "msg": "py_get_jacobian(method=%s) changed the parameter dictionary" % method})
+              if J.shape != (len(species), len(species)):
+                  viol.append({"key": "C18/jacobian-shape", "msg": "Jacobian shape %s" % (J.shape,)})
+                  continue
+              for i, si in enumerate(species):
+                  for j, sj in enumerate(species):
+                      sub = {k: v for k, v in sub_all.items() if k != X[sj]}
+                      dexpr = sympy.diff(f[si], X[sj])
+                      exact = float(dexpr.subs(sub_all))
+                      tol = 2 * bound(f[si], X[sj], sub, st[sj], method) + 1e-9 * (1 + abs(exact)) + 50 * eps * fmax / h
+                      C["jacobian_entries"] += 1
+                      if exact != 0 and sympy.diff(dexpr, X[sj]) != 0:
+                          nontrivial = True
+                          C["nontrivial_entries"] += 1
+                      if not (abs(J[i, j] - exact) <= tol):
+                          viol.append({"key": "C18/jacobian:%s" % method,
+                                       "msg": "J[%s,%s] (method %s) = %r, analytic d f_%s/d %s = %r, tolerance %.3g at state %s" % (si, sj, method, J[i, j], si, sj, exact, tol, st)})
+              for pname in pdict:
+                  before = dict(M.get_parameter_dictionary())
+                  try:
+                      Z = py_get_sensitivity_to_parameter(M, xs.copy(), pname, method=method)
+                  except Exception as e:
+                      viol.append({"key": "C18/sensitivity-raises", "msg": "py_get_sensitivity_to_parameter(%s, method=%s) raised %r" % (pname, method, e)})
+                      continue
+                  after = dict(M.get_parameter_dictionary())
+                  if after != before:
+                      viol.append({"key": "C18/parameters-changed", "msg": "py_get_sensitivity_to_parameter(%s, %s) changed parameters: %r -> %r" % (
+                          pname, method, {k: before[k] for k in before if before[k] != after.get(k)}, {k: after[k] for k in after if before.get(k) != after[k]})})
+                      M.set_params(before)
+                  sub = {k: v for k, v in sub_all.items() if k != P[pname]}
+                  for i, si in enumerate(species):
+                      dexpr = sympy.diff(f[si], P[pname])
+                      exact = float(dexpr.subs(sub_all))
+                      tol = 2 * bound(f[si], P[pname], sub, pdict[pname], method) + 1e-9 * (1 + abs(exact)) + 50 * eps * fmax / h
+                      C["sensitivity_entries"] += 1
+                      if exact != 0 and sympy.diff(dexpr, P[pname]) != 0:
+                          nontrivial = True
+                          C["nontrivial_entries"] += 1
+                      if not (abs(Z[i] - exact) <= tol):
+                          viol.append({"key": "C18/sensitivity:%s" % method,
+                                       "msg": "dF/d%s[%s] (method %s) = %r, analytic %r, tolerance %.3g at state %s" % (pname, si, method, Z[i], exact, tol, st)})
+          if len(viol) > 4:
+              break
     C["contract_evaluations"] += len(_contract_log)
     for ok, old, now in _contract_log:
         if not ok:
